@@ -19,32 +19,32 @@ use std::collections::HashMap;
 use std::sync::{Arc, Mutex};
 use std::time::{Duration, Instant};
 
-fn tid(n: u64) -> TargetId {
+pub fn tid(n: u64) -> TargetId {
     TargetId {
         project_name: None,
         target_name: format!("t{}", n),
     }
 }
 
-fn tnum(t: &TargetId) -> String {
+pub fn tnum(t: &TargetId) -> String {
     t.target_name.trim_start_matches('t').to_string()
 }
 
-fn fmt_kind(k: &ExecutionKind) -> &'static str {
+pub fn fmt_kind(k: &ExecutionKind) -> &'static str {
     match k {
         ExecutionKind::Build => "B",
         ExecutionKind::Service => "S",
     }
 }
 
-fn fmt_aid(a: &ActorId) -> String {
+pub fn fmt_aid(a: &ActorId) -> String {
     match a {
         ActorId::Root => "R".to_string(),
         ActorId::Target(t) => tnum(t),
     }
 }
 
-fn fmt_msg(m: &ActorInputMessage) -> String {
+pub fn fmt_msg(m: &ActorInputMessage) -> String {
     match m {
         ActorInputMessage::Requested { kind, requester } => {
             format!("Rq:{}:{}", fmt_kind(kind), fmt_aid(requester))
@@ -63,7 +63,7 @@ fn fmt_msg(m: &ActorInputMessage) -> String {
     }
 }
 
-fn fmt_out(o: &TargetActorOutputMessage) -> String {
+pub fn fmt_out(o: &TargetActorOutputMessage) -> String {
     match o {
         TargetActorOutputMessage::TargetExecutionError(t, _) => format!("ERR:{}", tnum(t)),
         TargetActorOutputMessage::MessageActor { dest, msg } => {
@@ -72,7 +72,7 @@ fn fmt_out(o: &TargetActorOutputMessage) -> String {
     }
 }
 
-fn ids(s: &str, sep: char) -> Vec<u64> {
+pub fn ids(s: &str, sep: char) -> Vec<u64> {
     if s == "-" {
         vec![]
     } else {
